@@ -83,8 +83,10 @@ def detect(seed, pid, tier="quick"):
         rc, out = sh(["git", "-C", str(wt), "apply", str(seed / "patch.diff")])
         if rc:
             raise SystemExit(out)
+        # private copy of the Lean project (with its build output) so that several detections can run at once
+        sh(["rsync", "-a", str(VERIF / "lean") + "/", str(d / "lean") + "/"])
         rc, out = sh([str(VERIF / "check"), pid, "--tier", tier], cwd=VERIF,
-                     env={"PGV_REPO": str(wt), "PGV_EVIDENCE_DIR": str(d / "evidence"), "PGV_REPLAY_DIR": str(d / "replays")}, timeout=7200)
+                     env={"PGV_REPO": str(wt), "PGV_LEAN_DIR": str(d / "lean"), "PGV_EVIDENCE_DIR": str(d / "evidence"), "PGV_REPLAY_DIR": str(d / "replays")}, timeout=7200)
         viol = [l for l in out.splitlines() if l.startswith("VIOLATION")]
         summary = [l for l in out.splitlines() if l.startswith(f"[{pid}]")]
         replay = None
